@@ -6,6 +6,7 @@ import (
 	"go/types"
 	"os"
 	"sort"
+	"strings"
 
 	"golang.org/x/tools/go/ssa"
 )
@@ -369,7 +370,7 @@ func (a *FuncAn) hoist(g Lin) (string, bool) {
 	if e.Roots[f] || e.Scope == nil || !e.Scope[f] || len(g.t) == 0 || e.hoistBusy[f] {
 		return "", false
 	}
-	if f.Object() != nil && f.Object().Exported() {
+	if f.Object() != nil && f.Object().Exported() && !internalPkg(f) {
 		return "", false // callable from outside the analysed scope
 	}
 	type et struct {
@@ -1014,4 +1015,13 @@ func lenPositiveOperand(c *ssa.BinOp, op token.Token) ssa.Value {
 		}
 	}
 	return nil
+}
+
+// internalPkg: f lives in a package under internal/ — exported there, but only the module's own packages can call it.
+func internalPkg(f *ssa.Function) bool {
+	if f == nil || f.Pkg == nil {
+		return false
+	}
+	p := f.Pkg.Pkg.Path()
+	return strings.Contains(p, "/internal/") || strings.HasSuffix(p, "/internal")
 }
